@@ -9,46 +9,48 @@ import (
 
 // histOp is one client operation of the recorded history.
 type histOp struct {
-	client  int
-	host    int
-	write   bool
-	key     byte
-	wid     uint64
-	call    int64
-	ret     int64 // 0 = never returned (maybe)
-	outVal  uint64
-	outVer  uint64
-	known   bool // outcome known (Completed)
-	failed  string
-	dropped bool // op provably never took effect (rejected before acceptance)
+	client   int
+	host     int
+	write    bool
+	key      byte
+	wid      uint64
+	call     int64
+	ret      int64 // 0 = never returned (maybe)
+	outVal   uint64
+	outVer   uint64
+	known    bool // outcome known (Completed)
+	failed   string
+	dropped  bool // op provably never took effect (rejected before acceptance)
+	recorded bool
+	retried  bool // proposed more than once (same session, same series id)
 }
 
 // Client is a simulated user of the public API.
 type Client struct {
-	id    int
-	sim   *Sim
-	phase int // 0 idle, 1 waiting for result, 2 read index confirmed: local read pending, 3 local read running
-	host  *Host
-	hinc  int
-	rs    *dragonboat.RequestState
-	op    *histOp
-	issuedTick int64
+	id            int
+	sim           *Sim
+	phase         int // 0 idle, 1 waiting for result, 2 read index confirmed: local read pending, 3 local read running
+	host          *Host
+	hinc          int
+	rs            *dragonboat.RequestState
+	op            *histOp
+	issuedTick    int64
 	commitAtIssue uint64 // highest commit index seen on any replica when the request was issued
 	committedSeen int
-	session   *client.Session // registered session (nil: not registered / no-op mode)
-	sessOp    string          // "", "register", "unregister", "dead-propose": what the outstanding request is
-	regSess   *client.Session // session being registered / unregistered
-	deadSess  *client.Session // a session that was unregistered (proposals with it must be Rejected)
-	retry     *histOp         // a session proposal whose outcome is unknown: retried with the same series id
-	retryCmd  []byte
-	final     bool
-	finalLeft int
-	readVal   KVVal
-	readErr   error
-	readDone  bool
-	held      []*heldReq // completed requests kept (not released) to detect a second result
-	nextAt    int64      // earliest global tick of the next operation (back off after failures)
-	issued    int
+	session       *client.Session // registered session (nil: not registered / no-op mode)
+	sessOp        string          // "", "register", "unregister", "dead-propose": what the outstanding request is
+	regSess       *client.Session // session being registered / unregistered
+	deadSess      *client.Session // a session that was unregistered (proposals with it must be Rejected)
+	retry         *histOp         // a session proposal whose outcome is unknown: retried with the same series id
+	retryCmd      []byte
+	final         bool
+	finalLeft     int
+	readVal       KVVal
+	readErr       error
+	readDone      bool
+	held          []*heldReq // completed requests kept (not released) to detect a second result
+	nextAt        int64      // earliest global tick of the next operation (back off after failures)
+	issued        int
 }
 
 type heldReq struct {
@@ -89,6 +91,9 @@ func (c *Client) beginFinal() {
 		if c.op != nil && c.op.write {
 			c.op.failed = "abandoned"
 			c.sim.orc.recordOp(c.op)
+			// the series id of the abandoned proposal must not be reused for
+			// another command: the client gives the session up
+			c.session, c.retry = nil, nil
 		}
 		c.sim.orc.abandoned = append(c.sim.orc.abandoned, &pendingReq{rs: c.rs, host: c.host, hinc: c.hinc, issued: c.issuedTick, timeout: int64(c.sim.cfg.TimeoutTicks)})
 		c.op, c.phase, c.rs = nil, 0, nil
@@ -115,9 +120,12 @@ func (c *Client) finalDone() bool {
 
 func (c *Client) pickHost() *Host {
 	s := c.sim
+	// a witness has no state machine and so no client sessions: NodeHost.Propose
+	// panics when given a registered session for one (API misuse, not modelled)
+	sessions := s.cfg.Sessions && s.cfg.SMKind != KindOnDisk
 	var cands []*Host
 	for _, h := range s.hosts {
-		if h.up && !h.stopped && !h.removed && h.started && s.shardLoaded(h) && (h.role != roleWitness || h.initial || s.src.Chance(1, 10)) {
+		if h.up && !h.stopped && !h.removed && h.started && s.shardLoaded(h) && (h.role != roleWitness || h.initial || (s.src.Chance(1, 10) && !sessions)) {
 			cands = append(cands, h)
 		}
 	}
@@ -155,6 +163,7 @@ func (c *Client) act() {
 	case useSessions && c.retry != nil:
 		// the API prescribes: after a timeout retry with the same series id
 		op = c.retry
+		op.retried = true
 		cmd := c.retryCmd
 		sess := c.session
 		s.ctx.Ev("client.retry", uint64(c.id), uint64(h.id), uint64(op.key), op.wid)
@@ -172,7 +181,10 @@ func (c *Client) act() {
 		// a proposal of an unregistered session must be Rejected
 		ds := c.deadSess
 		c.deadSess = nil
-		ds.PrepareForPropose()
+		// an application that keeps using a session it has unregistered: the next
+		// series id of that session (PrepareForPropose would rewind it below
+		// RespondedTo, which the client library itself refuses with a panic)
+		ds.SeriesID = ds.RespondedTo + 1
 		s.nextWID++
 		op = &histOp{client: c.id, host: h.id, key: byte(s.src.Intn(s.cfg.Keys)), write: true, wid: s.nextWID}
 		cmd := MakeCmd(op.key, op.wid, s.cfg.Pad)
@@ -337,9 +349,10 @@ func (c *Client) poll() {
 			if op.write {
 				switch {
 				case useSessions && r.Rejected():
-					// the session is unknown to the shard (evicted): the proposal was
-					// not applied; a new session is needed
-					op.dropped = true
+					// the session is unknown to the shard (evicted): this attempt was
+					// not applied (an earlier attempt of the same proposal may have
+					// been, before the eviction); a new session is needed
+					op.dropped = !op.retried
 					s.orc.recordOp(op)
 					s.ctx.Count("probe.session_rejected", 1)
 					c.session, c.retry = nil, nil
